@@ -14,6 +14,7 @@
 #include <sys/uio.h>
 
 #include "queue.h"
+#include "message.h"
 #include "vf.h"
 
 const char *vf_name = "c13_queue";
@@ -24,18 +25,18 @@ typedef struct { uint8_t d[MCAP]; size_t n; } model;
 enum {
 	OpPush, OpPushZero, OpPop, OpPopNull, OpShift, OpShiftNull, OpUnshift,
 	OpPost, OpPre, OpCrop, OpGet, OpSet, OpSetZero, OpData, OpEmpty, OpFind,
-	OpAlign, OpResize, OpPrepare, OpString, OpLoad, OpSave, OpCount
+	OpAlign, OpResize, OpPrepare, OpString, OpLoad, OpSave, OpMsgGet, OpCount
 };
 static const char *opname[OpCount] = {
 	"qpush", "qpush0", "qpop", "qpopnull", "qshift", "qshiftnull", "qunshift",
 	"qpost", "qpre", "queue_crop", "queue_get", "queue_set", "queue_set0", "queue_data", "queue_empty", "queue_find",
-	"queue_align", "queue_resize", "queue_prepare", "queue_string", "queue_load", "queue_save"
+	"queue_align", "queue_resize", "queue_prepare", "queue_string", "queue_load", "queue_save", "message_get"
 };
 static const char *apiname[OpCount] = {
 	"mpt_qpush", "mpt_qpush", "mpt_qpop", "mpt_qpop", "mpt_qshift", "mpt_qshift", "mpt_qunshift",
 	"mpt_qpost", "mpt_qpre", "mpt_queue_crop", "mpt_queue_get", "mpt_queue_set", "mpt_queue_set", "mpt_queue_data",
 	"mpt_queue_empty", "mpt_queue_find", "mpt_queue_align", "mpt_queue_resize", "mpt_queue_prepare", "mpt_queue_string",
-	"mpt_queue_load", "mpt_queue_save"
+	"mpt_queue_load", "mpt_queue_save", "mpt_message_get"
 };
 /* descriptor pair for load/save: a non-blocking pipe owned by the harness */
 static int pfd[2] = { -1, -1 };
@@ -393,6 +394,38 @@ static int apply(int op, MPT_STRUCT(queue) *q, model *m, size_t a, size_t b)
 		m->n = had - (size_t) put;
 		accepted = 1;
 		break; }
+	case OpMsgGet: {
+		/* message view of the range (a, b): base part + at most one continuation, both inside the storage */
+		MPT_STRUCT(message) msg;
+		struct iovec cont;
+		int with_vec = (a + b) & 1 || b > low;
+		memset(&msg, 0, sizeof(msg));
+		memset(&cont, 0, sizeof(cont));
+		int rg = mpt_message_get(q, a, b, &msg, with_vec ? &cont : 0);
+		if (a > m->n || b > m->n - a) {
+			VF_CHECK(rg < 0, key(op, "accepted-outside"), "%s: range beyond %zu queued bytes accepted (%d)", ctx, m->n, rg);
+			break;
+		}
+		if (rg < 0) {
+			/* only a range stored across the storage end may be refused, and only without continuation vector */
+			VF_CHECK(!with_vec && a < low && a + b > low, key(op, "refused"), "%s: returned %d", ctx, rg);
+			break;
+		}
+		const uint8_t *st = q->base, *en = st + q->max, *p0 = msg.base;
+		VF_CHECK(msg.used <= b && (!msg.used || (p0 >= st && p0 + msg.used <= en)), key(op, "leaves-storage"), "%s: base part %zu bytes outside the storage", ctx, msg.used);
+		size_t got = msg.used;
+		if (msg.used) VF_CHECK(!memcmp(p0, m->d + a, msg.used), key(op, "content"), "%s: base part differs from the model", ctx);
+		if (rg > 0) {
+			const uint8_t *p1 = cont.iov_base;
+			VF_CHECK(msg.clen == 1 && msg.cont == &cont, key(op, "continuation"), "%s: result %d without continuation", ctx, rg);
+			VF_CHECK(p1 >= st && p1 + cont.iov_len <= en, key(op, "leaves-storage"), "%s: continuation of %zu bytes outside the storage", ctx, cont.iov_len);
+			VF_CHECK(got + cont.iov_len == b && !memcmp(p1, m->d + a + got, cont.iov_len), key(op, "content"), "%s: continuation differs from the model", ctx);
+			got += cont.iov_len;
+			vf_count("state:message-view-with-continuation", 1);
+		}
+		VF_CHECK(got == b, key(op, "length"), "%s: view covers %zu of %zu bytes", ctx, got, b);
+		accepted = 1;
+		break; }
 	case OpString: {
 		char *s = mpt_queue_string(q);
 		if (!nfree) {
@@ -450,7 +483,7 @@ static void case_exhaustive(uint64_t idx)
 	else if (len) vf_nontrivial();
 	if (vf_logging) vf_log("exhaustive %s on max=%zu off=%zu len=%zu", opname[op], max, off, len);
 	switch (op) {
-	case OpCrop: case OpGet: case OpSet: case OpSetZero:
+	case OpCrop: case OpGet: case OpSet: case OpSetZero: case OpMsgGet:
 		for (size_t a = 0; a <= len + 1; a++)
 			for (size_t b = 0; b <= max + 1; b++) run_fresh(op, max, off, len, a, b);
 		break;
@@ -507,7 +540,7 @@ static void case_history(uint64_t idx, vf_rng *r)
 			if (!vf_chance(r, 1, 4)) op = OpPush;
 		}
 		switch (op) {
-		case OpCrop: case OpGet: case OpSet: case OpSetZero:
+		case OpCrop: case OpGet: case OpSet: case OpSetZero: case OpMsgGet:
 			a = vf_chance(r, 1, 8) ? q.len + 1 : vf_below(r, (uint32_t) q.len + 1);
 			b = pick_len(r, &q);
 			if (vf_chance(r, 1, 2) && a <= q.len) b = vf_below(r, (uint32_t) (q.len - a) + 1);
@@ -536,7 +569,7 @@ static void case_history(uint64_t idx, vf_rng *r)
 		}
 		if (!q.max && op != OpResize && op != OpPrepare) { op = OpPrepare; a = 1 + vf_below(r, 40); b = 0; }
 		int acc = apply(op, &q, &m, a, b);
-		if (acc && op != OpGet && op != OpData && op != OpEmpty && op != OpFind) mutating++;
+		if (acc && op != OpGet && op != OpData && op != OpEmpty && op != OpFind && op != OpMsgGet) mutating++;
 		if (acc && (op == OpLoad || op == OpSave) && q.max && (q.max - q.len) < q.off) vf_count("state:load-save-on-wrapped", 1);
 		if (q.max && q.len && (q.max - q.len) < q.off) wrapped = 1;
 		vf_fp_u64(((uint64_t) op << 48) ^ (a << 20) ^ b);
